@@ -23,6 +23,7 @@ EXPLANATION = (
     ' (K6) the rows to return are bound before the cache entry is written; (K7) the key hashes a serialisation of the payload itself.'
     ' (K8) the rows part of the hashed payload is the whole batch, not a projection of its rows. (K9) every value a stage stores in a result row survives a JSON round trip (no tuple / set), followed through locals and tuple-returning callees.'
     ' (K7) also: the key is the whole digest, not a slice of it. (K10) a Balancer setting that names a file read by a stage enters the key by content, not by path.'
+    ' (K3) also: the rows stored in an entry are the object the pipeline call was bound to, not a re-shaped copy.'
 )
 ASSUMPTIONS = ["os.replace is atomic on the cache file system", "sha256 collisions are ignored"]
 
